@@ -33,7 +33,139 @@ def project(tr):
         'cmds': [c for c in tr['cmds'] if c.startswith(('ATTACHSTREAM', 'SETCONF'))]}
 
 
-run_cases = tsprop.make_run_cases(tagger, project)
+_ts_run_cases = tsprop.make_run_cases(tagger, project)
+
+
+# -- PriorityAttacher: every small history of add/remove, every answer pattern ------------------------------
+def prio_impl(c):
+    from zope.interface import implementer
+    from txtorcon.attacher import PriorityAttacher
+    from txtorcon.interface import IStreamAttacher
+    pa = PriorityAttacher()
+    subs = {}
+    consulted = []
+    answers = {}
+
+    def sub(n):
+        if n not in subs:
+            @implementer(IStreamAttacher)
+            class S:
+                def attach_stream(self, stream, circuits):
+                    consulted.append(n)
+                    return answers.get(n)
+
+                def attach_stream_failure(self, stream, fail):
+                    pass
+            subs[n] = S()
+        return subs[n]
+    out = []
+    for op in c['ops']:
+        if op[0] == 'add':
+            pa.add_attacher(sub(op[1]), op[2])
+            out.append('ok')
+        elif op[0] == 'rem':
+            try:
+                pa.remove_attacher(sub(op[1]))
+                out.append('ok')
+            except ValueError:
+                out.append('not-found')
+        else:
+            answers.clear()
+            answers.update(op[1])
+            del consulted[:]
+            r = pa.attach_stream(None, {})
+            out.append([list(consulted), r])
+    return out
+
+
+def prio_lines(c):
+    lines = ['reset']
+    for op in c['ops']:
+        if op[0] == 'add':
+            lines.append('add %d %d' % (op[1], op[2]))
+        elif op[0] == 'rem':
+            lines.append('rem %d' % op[1])
+        else:
+            lines.append('ask ' + (','.join('%d=%d' % kv for kv in sorted(op[1].items())) or '-'))
+    return lines
+
+
+def prio_spec(c):
+    """consulted in increasing (priority, insertion) order, removed ones skipped, first answer that is not None wins"""
+    entries, latest, out, n = [], {}, [], 0
+    for op in c['ops']:
+        if op[0] == 'add':
+            entries.append([op[2], n, op[1]])
+            latest[op[1]] = entries[-1]
+            n += 1
+            out.append('ok')
+        elif op[0] == 'rem':
+            if op[1] in latest:
+                latest.pop(op[1])[2] = None
+                out.append('ok')
+            else:
+                out.append('not-found')
+        else:
+            seen, res = [], None
+            for _, _, a in sorted(entries, key=lambda e: (e[0], e[1])):
+                if a is None:
+                    continue
+                seen.append(a)
+                if op[1].get(a) is not None:
+                    res = op[1][a]
+                    break
+            out.append([seen, res])
+    return out
+
+
+def prio_cases(tier):
+    import itertools
+    prios = [0, 1, 2]
+    cases = []
+    for n in range(1, 5 if tier != 'quick' else 4):
+        for ps in itertools.product(prios, repeat=n):
+            adds = [['add', 10 + i, p] for i, p in enumerate(ps)]
+            for removed in itertools.chain.from_iterable(itertools.combinations(range(n), k) for k in range(0, min(n, 2) + 1)):
+                for who in range(n + 1):
+                    answers = {} if who == n else {10 + who: 70 + who}
+                    ops = adds + [['rem', 10 + r] for r in removed] + [['ask', answers], ['ask', {10 + i: 70 + i for i in range(n)}]]
+                    cases.append({'api': 'prio', 'ops': ops})
+    # the same attacher added twice, removed once; removing an unknown attacher
+    cases.append({'api': 'prio', 'ops': [['add', 10, 2], ['add', 11, 1], ['add', 10, 0], ['rem', 10], ['ask', {10: 5, 11: 6}], ['rem', 10], ['rem', 12]]})
+    return cases
+
+
+def run_cases(cases, drv, tier):
+    ts = [c for c in cases if c.get('api') != 'prio']
+    pr = [c for c in cases if c.get('api') == 'prio']
+    res = _ts_run_cases(ts, drv, tier) if ts else []
+    if pr:
+        outs = None
+        if drv is not None:
+            pd = common.Driver('Prio')
+            lines, spans = [], []
+            for c in pr:
+                ls = prio_lines(c)
+                spans.append((len(lines), len(ls)))
+                lines += ls
+            outs = pd.run(lines)
+        for k, c in enumerate(pr):
+            im = prio_impl(c)
+            model = corr_ok = None
+            if outs is not None:
+                a, n = spans[k]
+                model = []
+                for o in outs[a + 1:a + n]:
+                    if ' ' in o:
+                        seen, r = o.split(' ')
+                        model.append([[] if seen == '-' else [int(x) for x in seen.split(',')], None if r == 'none' else int(r)])
+                    else:
+                        model.append(o)
+                corr_ok = im == model
+            spec = prio_spec(c)
+            res.append(common.Result(c, im, model, spec, corr_ok=corr_ok, prop_ok=(im == spec), in_h=True,
+                                     nontrivial=len([o for o in c['ops'] if o[0] == 'add']) >= 2, tags=['priority-attacher']))
+    return res
 
 
 def corpus():
@@ -47,6 +179,8 @@ def corpus():
 
 
 def gen_cases(rng, tier):
+    for c in prio_cases(tier):
+        yield c
     n = 250 if tier == 'quick' else 12000
     for k in range(n):
         if k % 3 == 2:
